@@ -39,7 +39,7 @@ def main():
         return 2
     ctx = common.Context(prop, args.tier, seed)
     try:
-        aud = common.audit(mod.THEOREMS)
+        aud = common.audit(mod.THEOREMS, schema_groups=getattr(mod, "SCHEMA_TIE", ()))
         if args.replay:
             with open(args.replay) as fh:
                 doc = json.load(fh)
